@@ -568,13 +568,14 @@ def judge_req(sim, ev, rec):
         if handed:
             add(sim, rec, "C10", "undecodable-handed", F["undecodable"])
         return
-    want = {"authn_request": "AuthnRequest", "logout_request": "LogoutRequest",
-            "attribute_query": "AttributeQuery"}[rec["kindmsg"]]
+    # the type the receiving endpoint expects (a request delivered to another service's endpoint
+    # must not be handed over as that service's request type)
+    service = rec["via"].split("_")[0] + "_"
+    want = {"sso_": "AuthnRequest", "slo_": "LogoutRequest", "aa_": "AttributeQuery"}[service]
     if m["ns"] != wire.SAMLP or m["type"] != want:
         if handed:
-            add(sim, rec, "C10", "wrong-type-handed", "%s" % m["type"])
+            add(sim, rec, "C10", "wrong-type-handed", "%s at %s" % (m["type"], rec["via"]))
         return
-    service = {"authn_request": "sso_", "logout_request": "slo_", "attribute_query": "aa_"}[rec["kindmsg"]]
     own = [u for k, u in idp.endpoints.items() if k.startswith(service) and k.endswith(rec["via_binding"])]
     F.update({"dest": m["destination"], "own": own, "signed": m["signed"], "issuer": m["issuer"]})
     if m["destination"] and m["destination"] not in own:
@@ -609,9 +610,12 @@ def judge_req(sim, ev, rec):
         genuine = [t for t in rec["tool"] if t.get("op") == "verify" and t.get("genuine_ok")]
         if not genuine:
             hits.append(("no-genuine-verify", "tool=%s" % [(t.get("fault"), t.get("healthy_ok")) for t in rec["tool"]]))
-    elif spec.get("want_authn_requests_signed") and rec["kindmsg"] == "authn_request":
+    elif spec.get("want_authn_requests_signed"):
         hits.append(("unsigned-but-required", ""))
     F["hits"] = [h[0] for h in hits]
+    for rule, _ in hits:
+        sim.count("oracle.C10.%s.%s" % (rec["kindmsg"], rule))
+    sim.count("oracle.C10.handed" if handed else "oracle.C10.refused")
     if handed:
         for rule, detail in hits:
             prop = "C20" if rule == "no-genuine-verify" else "C10"
@@ -620,4 +624,5 @@ def judge_req(sim, ev, rec):
     faultless = not rec.get("mut") and not rec.get("tf")
     if faultless and not hits and fresh_comfortable and sig_ok and m["issuer"] in idp.peer_view \
             and (m["destination"] in own):
+        sim.count("oracle.C10.accept-required.refused")
         add(sim, rec, "C10", "valid-request-refused", "exc=%s" % rec.get("exc"))
